@@ -12,8 +12,9 @@ RULE = ("random binary/integer images of 1-4 D (incl. strongly elongated 1xn, nx
         "all 8 symmetries, embedded as 1xHxW / HxWx1 / HxW; every 1-D line is also run through the extracted lower-envelope "
         "model against the extracted min-plus specification. gvoronoi: label of a nearest labelled pixel (ties: any) and equal to "
         "the model. thorough: all binary images <=3x4 and <=2x2x3. Non-trivial: image has both foreground and background")
-NOT_PROVED = ["dt1d (lower envelope) = minplus1d is proved only as a finite sweep (lines <= 6 over 4 values); for all other lines the "
-              "two executable definitions are compared by the check on every generated line",
+NOT_PROVED = ["the tie of the hand-written Coq model (Model/Distance.v: parabola stack with cross-multiplied intersections, forward "
+              "sweep, one pass per axis) to _distance.cpp / distance.py is the correspondence check; the model itself is proved exact "
+              "for all inputs (dt1d_spec, distance_exact)",
               "the final sqrt of metric='euclidean' is numpy's and is compared with the correctly rounded root",
               "gvoronoi tie-breaking follows the model; nearest-label is judged by the definition on every case"]
 BUDGET_S = {"quick": 110, "thorough": 1200}
